@@ -20,8 +20,11 @@ Record obs := {
   o_alias : bool;                     (* the wrapped dataset's getitem_x hands out its stored tensors (or views of them) *)
   o_store_changed : bool;             (* a stored tensor / label of the wrapped dataset differs from what it was before the
                                          requests (earlier requests of the history, the request itself, repetitions) *)
-  o_x_shares : option bool            (* the returned x shares its storage with a stored sample (None: no x returned, or a
+  o_x_shares : option bool;           (* the returned x shares its storage with a stored sample (None: no x returned, or a
                                          transform above the mix wrapper built a new tensor) *)
+  o_lab_fresh : option bool           (* the returned label is an object of its own: a whole storage that is neither the
+                                         dataset's nor that of any other tensor returned by this or an earlier request
+                                         that is still alive (None: no label returned) *)
 }.
 
 Definition optz_eqb (a b : option Z) : bool :=
@@ -112,6 +115,26 @@ Definition shares_match (pred obs : option bool) : bool :=
   | Some _, None => false
   end.
 
+(* the label heap reading (Heap.label_request_h) of the last observed call over the stored labels at addresses 0..n-1:
+   where it says the returned label is a new object (class-id labels, mixed samples) the observed label must be one;
+   where it says the dataset's stored vector is handed on (untouched sample with a vector label) nothing is required
+   (a long vector is converted, a smoothing wrapper below builds a new vector: both new objects in reality) *)
+Definition predicted_label_fresh (lit : list sample_lit) (ncls : nat) (c : cfg) (idx : nat) (cs : list ocall) : option bool :=
+  let h0 := map (fun s => match snd s with LVec v => v | LInt _ => [] end) lit in
+  match rev cs with
+  | [] => None
+  | oc :: _ =>
+      match label_request_h (lit_dataset lit ncls) c idx (oc_draws oc) h0 with
+      | Some (_, a) => Some (length h0 <=? a)%nat
+      | None => None
+      end
+  end.
+Definition lab_fresh_match (pred obs : option bool) : bool :=
+  match obs, pred with
+  | Some false, Some true => false
+  | _, _ => true
+  end.
+
 Definition case_t : Type :=
   cfg * (list sample_lit * nat) * list token * nat * nat * obs.
 
@@ -123,7 +146,8 @@ Definition check (t : case_t) : nat :=
   let m := mw_getitem ds c (oracle_of (o_calls o)) toks idx in
   match outcome with
   | O =>
-      if negb (spec_obs ds c toks idx (o_wit o) (o_items o) (o_ctx_ids o)) || o_store_changed o then 2%nat else
+      if negb (spec_obs ds c toks idx (o_wit o) (o_items o) (o_ctx_ids o)) || o_store_changed o
+         || negb (lab_fresh_match (predicted_label_fresh lit ncls c idx (o_calls o)) (o_lab_fresh o)) then 2%nat else
       match m with
       | Ok (vals, calls) =>
           if forall2b value_match vals (o_items o) && forall2b call_match calls (o_calls o)
